@@ -15,6 +15,14 @@
 (*  "post"   glyph-name list -> format 1 / 2 / 3 bytes -> list             *)
 (*           (post/post.go Encode 118-170, Read 46-115), format 2 with the *)
 (*           choice of re-using an equal Pascal string or writing it again.*)
+(*  "posth"  the same table as an OBJECT with a history: the list handed to  *)
+(*           Encode may come from an earlier Read and alias storage the    *)
+(*           package owns (post.Read returns its shared standard-name      *)
+(*           slice for version 1 tables, post/post.go 62).  Actions Fresh  *)
+(*           (Init), Encode, Read, Slice(i, j), Append, Mutate; state =    *)
+(*           the VALUE of the caller's list and WHICH STORAGE it aliases.  *)
+(*           What Encode writes is a function of the value alone.  Every   *)
+(*           history of MaxOps calls is printed for replay (HistEmit).     *)
 (*  "codec"  every short sequence of boundary code units / code points and *)
 (*           every byte: the codecs invert each other on their domains.    *)
 (*  "tags"   OpenType (script, language) pairs -> BCP 47 tag with a        *)
@@ -22,7 +30,7 @@
 (*           (opentype/gtab/locale.go 26-106), and why the private-use     *)
 (*           part is needed: the base tag alone is not injective.          *)
 (***************************************************************************)
-EXTENDS Integers, Sequences, FiniteSets, TLC, SequencesExt, NameCodecOps
+EXTENDS Integers, Sequences, FiniteSets, TLC, Json, SequencesExt, NameCodecOps
 
 CONSTANTS Part,
           Keys,      \* "name": set of <<platform, language id, name id>>
@@ -33,6 +41,8 @@ CONSTANTS Part,
           PMaxLen,   \* "post": longest glyph list
           CUnits,    \* "codec": boundary code units
           CCps,      \* "codec": boundary code points
+          MaxOps,    \* "posth": length of the call histories
+          AllowSharedMutation,  \* "posth": may the caller write into storage the package owns? (contract: no)
           Pairs,     \* "tags": set of <<script, language>> (model values)
           BaseOf     \* "tags": function Pairs -> base tag (not injective)
 
@@ -183,6 +193,98 @@ PostReadable == ph = "dec" => ENABLED PostRead
 PostSize == (ph = "dec" /\ FormatOf(gl) = 2) => Len(pbytes) = 4 + 2 + 2 * Len(gl.names) + PascalSize(pstr)
 
 ---------------------------------------------------------------------------
+(* "posth": glyph-name lists with a history.                                  *)
+(*   gl      the value of the list the caller holds                           *)
+(*   cw.alias  which storage that list aliases: "fresh" (the caller's own),   *)
+(*           "shared" (the package's standard-name slice, handed out by Read  *)
+(*           of a version 1 table), "read" (allocated by Read of a version 2  *)
+(*           table; the caller's from then on)                                *)
+(*   cw.sh   content of the package's shared standard-name storage           *)
+(*   cw.last value given to the last Encode; pbytes its result                *)
+(*   cw.ops  the calls so far                                                 *)
+
+\* deterministic spec-level encoder (no string re-use): a function of the VALUE of the list
+EncIdx(names) ==
+  FoldLeft(LAMBDA acc, nm : IF IsStd(nm) THEN [idx |-> Append(acc.idx, StdIndex(nm) - 1), strs |-> acc.strs]
+                            ELSE [idx |-> Append(acc.idx, NStd + Len(acc.strs)), strs |-> Append(acc.strs, nm)],
+           [idx |-> <<>>, strs |-> <<>>], names)
+EncDet(g) == IF FormatOf(g) = 2
+               THEN LET e == EncIdx(g.names) IN Header(2) \o BE(<<Len(e.idx)>>) \o BE(e.idx) \o PascalFrame(e.strs)
+               ELSE Header(FormatOf(g))
+\* reader; std is the content of the standard-name storage it looks names up in
+DecWith(b, std) ==
+  IF b[2] = 2
+    THEN LET n     == UnBE(SubSeq(b, 5, 6))[1]
+             index == UnBE(SubSeq(b, 7, 6 + 2 * n))
+             strs  == PascalParse(SubSeq(b, 7 + 2 * n, Len(b)))
+         IN  [nil |-> FALSE, names |-> PostNames(std, index, strs)]
+    ELSE IF b[2] = 1 THEN [nil |-> FALSE, names |-> std] ELSE NoNames
+
+HOp(o, a) == [op |-> o, a |-> a]
+HInits == [std  |-> [nil |-> FALSE, names |-> PStd],
+           stdp |-> [nil |-> FALSE, names |-> SubSeq(PStd, 1, NStd - 1)],
+           cust |-> [nil |-> FALSE, names |-> <<<<3>>, <<2, 1>>>>],
+           mix  |-> [nil |-> FALSE, names |-> <<PStd[2], <<3>>, PStd[1]>>],
+           nil  |-> NoNames]
+
+HistInit ==
+  /\ \E i \in DOMAIN HInits :
+       /\ gl = HInits[i]
+       /\ cw = [k |-> "hist", alias |-> "fresh", sh |-> PStd, last |-> NoNames, init |-> i, ops |-> <<>>]
+  /\ pbytes = <<>> /\ ph = "hist"
+
+HCan == Part = "posth" /\ Len(cw.ops) < MaxOps
+HLog(o, a) == Append(cw.ops, HOp(o, a))
+
+\* Encode: the bytes depend on the value of the list only, not on what it aliases
+HEncode == /\ HCan
+           /\ pbytes' = EncDet(gl)
+           /\ cw' = [cw EXCEPT !.last = gl, !.ops = HLog("E", 0)]
+           /\ UNCHANGED gl
+\* Read of the table written last: version 1 hands out the shared storage itself
+HRead == /\ HCan /\ pbytes # <<>>
+         /\ gl' = DecWith(pbytes, cw.sh)
+         /\ cw' = [cw EXCEPT !.alias = IF pbytes[2] = 1 THEN "shared" ELSE IF pbytes[2] = 2 THEN "read" ELSE "fresh",
+                             !.ops = HLog("R", 0)]
+         /\ UNCHANGED pbytes
+\* re-slicing keeps the alias: 1 = [:1], 2 = [:len-1], 3 = [1:len-1], 4 = [1:]
+HSlice == /\ HCan /\ ~gl.nil /\ Len(gl.names) >= 2
+          /\ \E kind \in 1..4 :
+               LET n == Len(gl.names)
+                   lo == IF kind \in {1, 2} THEN 1 ELSE 2
+                   hi == IF kind = 1 THEN 1 ELSE IF kind = 4 THEN n ELSE n - 1
+               IN  /\ gl' = [gl EXCEPT !.names = SubSeq(gl.names, lo, hi)]
+                   /\ cw' = [cw EXCEPT !.ops = HLog("S", kind)]
+          /\ UNCHANGED pbytes
+\* append (with a full slice expression: never writes into the aliased storage): 1 = the next
+\* standard name, 2 = a custom name
+HAppend == /\ HCan /\ ~gl.nil /\ Len(gl.names) <= NStd
+           /\ \E kind \in 1..2 :
+                LET nm == IF kind = 1 THEN PStd[(Len(gl.names) % NStd) + 1] ELSE <<3, 3>>
+                IN  /\ gl' = [gl EXCEPT !.names = Append(gl.names, nm)]
+                    /\ cw' = [cw EXCEPT !.alias = "fresh", !.ops = HLog("A", kind)]
+           /\ UNCHANGED pbytes
+\* the caller overwrites the first name; if the list aliases the package's storage, that storage changes
+HMutate == /\ HCan /\ ~gl.nil /\ Len(gl.names) >= 1
+           /\ (cw.alias = "shared" => AllowSharedMutation)
+           /\ gl' = [gl EXCEPT !.names[1] = <<2, 1>>]
+           /\ cw' = [cw EXCEPT !.ops = HLog("M", 0),
+                               !.sh = IF cw.alias = "shared" /\ gl.names[1] = cw.sh[1]
+                                        THEN [cw.sh EXCEPT ![1] = <<2, 1>>] ELSE cw.sh]
+           /\ UNCHANGED pbytes
+
+HistNext == HEncode \/ HRead \/ HSlice \/ HAppend \/ HMutate
+
+\* names read back = names written, whatever the history of the list was
+HistRoundTrip == (Part = "posth" /\ pbytes # <<>>) => DecWith(pbytes, PStd) = cw.last
+\* a Read returns what the last Encode was given
+HistReadFaithful == (Part = "posth" /\ Len(cw.ops) > 0 /\ cw.ops[Len(cw.ops)].op = "R") => gl = cw.last
+\* the package's storage is never changed by a caller who keeps the contract
+SharedIntact == Part = "posth" => cw.sh = PStd
+HistEmit == (Part = "posth" /\ Len(cw.ops) = MaxOps) =>
+              PrintT(<<"CASE", ToJson([part |-> "posthist", init |-> cw.init, ops |-> cw.ops])>>)
+
+---------------------------------------------------------------------------
 (* "codec": one state per value *)
 
 CodecInit ==
@@ -241,11 +343,13 @@ NoPost == gl = NoNames /\ pidx = <<>> /\ pstr = <<>> /\ pbytes = <<>> /\ pdec = 
 
 Init == CASE Part = "name"  -> NameInit /\ NoPost /\ cw = [k |-> "none"]
           [] Part = "post"  -> PostInit /\ Idle /\ cw = [k |-> "none"]
+          [] Part = "posth" -> HistInit /\ Idle /\ pidx = <<>> /\ pstr = <<>> /\ pdec = NoNames
           [] Part = "codec" -> CodecInit /\ Idle /\ NoPost
           [] Part = "tags"  -> TagsInit /\ Idle /\ NoPost
 
 Next == CASE Part = "name" -> NameNext /\ UNCHANGED <<gl, pidx, pstr, pbytes, pdec, cw>>
           [] Part = "post" -> PostNext /\ UNCHANGED <<src, todo, recs, stor, dec, cw>>
+          [] Part = "posth" -> HistNext /\ UNCHANGED <<src, todo, recs, stor, dec, ph, pidx, pstr, pdec>>
           [] OTHER -> FALSE
 
 Spec == Init /\ [][Next]_vars
